@@ -3,6 +3,7 @@
 -/
 import SymfcModel.Model.Tables
 import SymfcModel.Gen.PermTables
+import SymfcModel.Lemmas.Relabel4
 namespace Symfc.C10
 open Symfc
 
@@ -16,5 +17,113 @@ theorem no_pattern_forced_to_zero_O2_O3 :
 theorem order4_forces_ppqq_to_zero :
     (surjections 4 2).filter (fun a => !((Gen.stagesO4.flatMap (·.perms)).contains a)) =
       [[0,0,1,1],[0,1,0,1],[0,1,1,0],[1,0,0,1],[1,0,1,0],[1,1,0,0]] := by decide
+
+open Relabelling in
+/-- C10, atom ordering (orders 2, 3, 4; any well-formed supercell, any n_lp; with or without cutoff): the elements of
+    two index tuples are written in one row by the permutation stage IFF the first is covered (atoms pairwise within the
+    cutoff; at order 4 not of the pattern (p,p,q,q) — finding F1) and the second is a lattice translate of an index
+    permutation of the first. The right-hand side does not mention independent atoms, class numbering, combination
+    order or batches: the partition is a function of the crystal, not of its description. -/
+theorem same_row_iff_covered_and_same_orbit (c : Cell) (hwf : c.wf = true) (n : Nat)
+    (hn : n = 2 ∨ n = 3 ∨ n = 4) (cut : Option CutoffIn) (hcut : ∀ x, cut = some x → Cov.CutOK c x)
+    (t t' : List Nat) (hlen : t.length = n) (hlt : ∀ e ∈ t, e < 3 * c.N)
+    (hlen' : t'.length = n) (hlt' : ∀ e ∈ t', e < 3 * c.N) :
+    (∃ r ∈ allStageRows Gen.cutoffOps c n (stagesFor n) cut,
+        elemIdx c.N (c.atomicDecompr n) t ∈ r ∧ elemIdx c.N (c.atomicDecompr n) t' ∈ r) ↔
+      Relabel.Covered n cut t ∧
+        ∃ σ ∈ permsOf (List.range n), ∃ l, l < c.nlp ∧
+          t' = (σ.map (fun i => t.getD i 0)).map (OC.tauE c l) :=
+  Relabel.same_row_iff_covered_and_same_orbit c hwf n hn cut hcut t t' hlen hlt hlen' hlt'
+
+/-- C10: relabelling the atoms by a permutation π gives a well-formed supercell with the same n_lp whose translation
+    permutations are the conjugates `π ∘ tp[l] ∘ π⁻¹`, and transports cutoffs and index tuples. -/
+theorem relabelled_description_is_well_formed (c : Cell) (hwf : c.wf = true) (π πinv : Array Nat)
+    (hπ : isRelabelling c.N π πinv = true) :
+    (c.relabel π πinv).N = c.N ∧ (c.relabel π πinv).nlp = c.nlp ∧ (c.relabel π πinv).wf = true ∧
+    (∀ l i, l < c.nlp → i < c.N → (c.relabel π πinv).img l (Relabelling.ap π i) = Relabelling.ap π (c.img l i)) :=
+  let h := Relabel.relabel_preserves c hwf π πinv hπ
+  ⟨h.1, h.2.1, h.2.2.1, h.2.2.2.1⟩
+
+/-- C10, MAIN (atom ordering): the partition of tensor elements computed by the permutation stage is EQUIVARIANT under
+    relabelling the atoms — although the independent atoms, the class numbering and the combinations all differ between
+    the two descriptions. -/
+theorem partition_equivariant_under_atom_relabelling (c : Cell) (hwf : c.wf = true)
+    (π πinv : Array Nat) (hπ : isRelabelling c.N π πinv = true)
+    (n : Nat) (hn : n = 2 ∨ n = 3 ∨ n = 4)
+    (cut : Option CutoffIn) (hcut : ∀ x, cut = some x → Cov.CutOK c x)
+    (t t' : List Nat) (hlen : t.length = n) (hlt : ∀ e ∈ t, e < 3 * c.N)
+    (hlen' : t'.length = n) (hlt' : ∀ e ∈ t', e < 3 * c.N) :
+    Relabel.SameRow c n cut t t' ↔
+      Relabel.SameRow (c.relabel π πinv) n (Relabel.relabelCut π πinv cut) (relabelTuple π t) (relabelTuple π t') :=
+  Relabel.partition_equivariant_under_atom_relabelling c hwf π πinv hπ n hn cut hcut t t' hlen hlt hlen' hlt'
+
+/-- C10 on the computed pointer arrays: the connected components (columns of `c_pt`) of the two descriptions
+    correspond under π, for any two batch splits. -/
+theorem components_equivariant_under_atom_relabelling (c : Cell) (hwf : c.wf = true)
+    (π πinv : Array Nat) (hπ : isRelabelling c.N π πinv = true)
+    (n : Nat) (hn : n = 2 ∨ n = 3 ∨ n = 4)
+    (cut : Option CutoffIn) (hcut : ∀ x, cut = some x → Cov.CutOK c x)
+    (nBatch nBatch' : String → Nat) (p p' : Array Int)
+    (h : permDecompr Gen.cutoffOps c n (repFor n) (stagesFor n) cut nBatch = some p)
+    (h' : permDecompr Gen.cutoffOps (c.relabel π πinv) n (repFor n) (stagesFor n)
+      (Relabel.relabelCut π πinv cut) nBatch' = some p')
+    (t t' : List Nat) (hlen : t.length = n) (hlt : ∀ e ∈ t, e < 3 * c.N)
+    (hlen' : t'.length = n) (hlt' : ∀ e ∈ t', e < 3 * c.N) :
+    SameComp p (elemIdx c.N (c.atomicDecompr n) t) (elemIdx c.N (c.atomicDecompr n) t') ↔
+    SameComp p' (elemIdx c.N ((c.relabel π πinv).atomicDecompr n) (relabelTuple π t))
+      (elemIdx c.N ((c.relabel π πinv).atomicDecompr n) (relabelTuple π t')) :=
+  Relabel.components_equivariant_under_atom_relabelling c hwf π πinv hπ n hn cut hcut nBatch nBatch' p p' h h'
+    t t' hlen hlt hlen' hlt'
+
+/-- C10: the set of eliminated (forced-zero) elements is equivariant as well. -/
+theorem covered_equivariant_under_atom_relabelling (c : Cell) (hwf : c.wf = true)
+    (π πinv : Array Nat) (hπ : isRelabelling c.N π πinv = true)
+    (n : Nat) (hn : n = 2 ∨ n = 3 ∨ n = 4)
+    (cut : Option CutoffIn) (hcut : ∀ x, cut = some x → Cov.CutOK c x)
+    (nBatch nBatch' : String → Nat) (p p' : Array Int)
+    (h : permDecompr Gen.cutoffOps c n (repFor n) (stagesFor n) cut nBatch = some p)
+    (h' : permDecompr Gen.cutoffOps (c.relabel π πinv) n (repFor n) (stagesFor n)
+      (Relabel.relabelCut π πinv cut) nBatch' = some p')
+    (t : List Nat) (hlen : t.length = n) (hlt : ∀ e ∈ t, e < 3 * c.N) :
+    covered p (elemIdx c.N (c.atomicDecompr n) t) ↔
+    covered p' (elemIdx c.N ((c.relabel π πinv).atomicDecompr n) (relabelTuple π t)) :=
+  Relabel.covered_equivariant_under_atom_relabelling c hwf π πinv hπ n hn cut hcut nBatch nBatch' p p' h h' t hlen hlt
+
+/-- C10: the library lists the lattice translations of a re-described crystal in another ORDER; the partition only
+    depends on the SET of translations. -/
+theorem partition_depends_only_on_the_set_of_translations (c₁ c₂ : Cell) (h₁ : c₁.wf = true)
+    (h₂ : c₂.wf = true) (hN : c₁.N = c₂.N)
+    (h12 : ∀ l, l < c₁.nlp → ∃ l', l' < c₂.nlp ∧ ∀ i, i < c₁.N → c₁.img l i = c₂.img l' i)
+    (h21 : ∀ l, l < c₂.nlp → ∃ l', l' < c₁.nlp ∧ ∀ i, i < c₁.N → c₂.img l i = c₁.img l' i)
+    (n : Nat) (hn : n = 2 ∨ n = 3 ∨ n = 4) (cut : Option CutoffIn)
+    (hcut₁ : ∀ x, cut = some x → Cov.CutOK c₁ x)
+    (t t' : List Nat) (hlen : t.length = n) (hlt : ∀ e ∈ t, e < 3 * c₁.N)
+    (hlen' : t'.length = n) (hlt' : ∀ e ∈ t', e < 3 * c₁.N) :
+    Relabel.SameRow c₁ n cut t t' ↔ Relabel.SameRow c₂ n cut t t' :=
+  Relabel.partition_depends_only_on_the_set_of_translations c₁ c₂ h₁ h₂ hN h12 h21 n hn cut hcut₁ t t' hlen hlt hlen' hlt'
+
+/-- C10, atom ordering as the library sees it: `c₂` is ANY well-formed description with the same atoms count whose set of
+    translation permutations is the relabelled set (what the correspondence check `relabel` observes for the real
+    re-ordered crystal). The connected components of the two pointer arrays — the columns of the two `c_pt` matrices —
+    correspond under π, for any batch splits. -/
+theorem components_equivariant_under_redescription (c₁ c₂ : Cell) (h₁ : c₁.wf = true)
+    (h₂ : c₂.wf = true) (π πinv : Array Nat) (hπ : isRelabelling c₁.N π πinv = true)
+    (hN : c₁.N = c₂.N)
+    (h12 : ∀ l, l < (c₁.relabel π πinv).nlp → ∃ l', l' < c₂.nlp ∧
+      ∀ i, i < c₁.N → (c₁.relabel π πinv).img l i = c₂.img l' i)
+    (h21 : ∀ l, l < c₂.nlp → ∃ l', l' < (c₁.relabel π πinv).nlp ∧
+      ∀ i, i < c₁.N → c₂.img l i = (c₁.relabel π πinv).img l' i)
+    (n : Nat) (hn : n = 2 ∨ n = 3 ∨ n = 4) (cut : Option CutoffIn)
+    (hcut : ∀ x, cut = some x → Cov.CutOK c₁ x)
+    (nBatch₁ nBatch₂ : String → Nat) (p₁ p₂ : Array Int)
+    (hp₁ : permDecompr Gen.cutoffOps c₁ n (repFor n) (stagesFor n) cut nBatch₁ = some p₁)
+    (hp₂ : permDecompr Gen.cutoffOps c₂ n (repFor n) (stagesFor n) (Relabel.relabelCut π πinv cut) nBatch₂ = some p₂)
+    (t t' : List Nat) (hlen : t.length = n) (hlt : ∀ e ∈ t, e < 3 * c₁.N)
+    (hlen' : t'.length = n) (hlt' : ∀ e ∈ t', e < 3 * c₁.N) :
+    SameComp p₁ (elemIdx c₁.N (c₁.atomicDecompr n) t) (elemIdx c₁.N (c₁.atomicDecompr n) t') ↔
+    SameComp p₂ (elemIdx c₂.N (c₂.atomicDecompr n) (relabelTuple π t))
+      (elemIdx c₂.N (c₂.atomicDecompr n) (relabelTuple π t')) :=
+  Relabel.components_equivariant_under_redescription c₁ c₂ h₁ h₂ π πinv hπ hN h12 h21 n hn cut hcut
+    nBatch₁ nBatch₂ p₁ p₂ hp₁ hp₂ t t' hlen hlt hlen' hlt'
 
 end Symfc.C10
